@@ -121,6 +121,18 @@ CHECKS = {
             'values below 2^28; size >= 1; well-formed streams; up to 3-5 idle cycles per behaviour in the exhaustive part.',
             'TLC model checking of the codec FSMs under all pacing schedules; replay of every schedule; TLC trace validation against the command semantics',
             'DESIGN.md section 4, C20'),
+    'C17': ('model_checking',
+            'The real UART assembly (serializer, line, clock generation and recovery with its dividers/edge detectors/sync FSM, '
+            'deserializer) is built for divider N, its leaf netlist is extracted and executed cycle by cycle by the Kernel (behavioural '
+            'leaves transcribed in PrimSem) for every pair of bytes of an alphabet, every inter-byte gap 0..4N+2 and several receiver '
+            'patterns (incl. one ready cycle in nine); TLC checks DeliveredIsPrefixOfAccepted, LineIs8N1 (independent software receiver: '
+            'falling edge, mid-bit sampling every 2N cycles, start 0, 8 data bits LSB first, stop 1) and the bounded-liveness '
+            'AllDelivered. Every behaviour is replayed on the real assembly, validated wire by wire against the Kernel (drift) and '
+            'judged at the property layer (Trace_Uart); seeded random streams of up to 24 bytes at N in {2,3,4,8,13} as well.',
+            'receiver completes the two-phase hand-off before the next frame ends (a UART has no flow control); exhaustive part N=2,3 '
+            '(quick) / 2..5 (thorough), byte pairs from a small alphabet.',
+            'TLC model checking of the extracted netlist under Kernel semantics against the link specification; replay; TLC trace validation',
+            'DESIGN.md section 4, C17'),
 }
 
 PENDING = {}
